@@ -79,6 +79,7 @@ type wEngine struct {
 	isRoot   map[*ssa.Function]bool
 	changed  bool
 	why      map[ssa.Value]string
+	fvC      map[*ssa.FreeVar]wmask // receivers bound into method values
 	zeroG    map[*ssa.Global]bool
 }
 
@@ -118,7 +119,7 @@ func fieldKey(structPtrOrVal types.Type, idx int) string {
 func newW(c *Ctx, g *MCG, cfg *wRootCfg) *wEngine {
 	e := &wEngine{c: c, g: g, cfg: cfg, raw: map[ssa.Value]wmask{}, ret: map[*ssa.Function][]wmask{}, paramC: map[*ssa.Parameter]wParamC{},
 		storedF: map[string]uint64{}, storedE: map[string]uint64{}, local: map[types.Type]bool{}, boxed: map[*ssa.Function]bool{},
-		cbTarget: map[*ssa.Function]bool{}, isRoot: map[*ssa.Function]bool{}, inR: map[*ssa.Function]bool{}, why: map[ssa.Value]string{}}
+		cbTarget: map[*ssa.Function]bool{}, isRoot: map[*ssa.Function]bool{}, inR: map[*ssa.Function]bool{}, why: map[ssa.Value]string{}, fvC: map[*ssa.FreeVar]wmask{}}
 	e.reach = g.Reach(cfg.Roots...)
 	for _, f := range e.reach.Sorted() {
 		if len(f.Blocks) > 0 {
@@ -368,6 +369,10 @@ func (e *wEngine) mask(v ssa.Value) wmask {
 			}
 		}
 	case *ssa.FreeVar:
+		if isBoundWrapper(v.Parent()) {
+			// the receiver captured by a method value: whatever was bound where it was made
+			return e.fvC[v]
+		}
 		return wFreshDeep // address of a cell of an enclosing activation
 	}
 	m := e.raw[v]
@@ -637,6 +642,19 @@ func (e *wEngine) update(f *ssa.Function, v ssa.Value) {
 	case *ssa.MakeSlice, *ssa.MakeMap, *ssa.MakeChan:
 		e.set(v, wFresh, "")
 	case *ssa.MakeClosure:
+		if fn, ok := v.Fn.(*ssa.Function); ok && isBoundWrapper(fn) {
+			for i, b := range v.Bindings {
+				if i >= len(fn.FreeVars) {
+					break
+				}
+				cm := e.concrete(f, e.mask(b))
+				n := e.fvC[fn.FreeVars[i]].or(wmask{cm.obj & (wNF | wND), cm.ref & (wNF | wND)})
+				if n != e.fvC[fn.FreeVars[i]] {
+					e.fvC[fn.FreeVars[i]] = n
+					e.changed = true
+				}
+			}
+		}
 	case *ssa.MakeInterface:
 		e.set(v, e.mask(v.X), e.why[v.X])
 	case *ssa.ChangeInterface:
@@ -1223,4 +1241,10 @@ func (e *wEngine) explain(s wSite) string {
 		}
 	}
 	return "derived from " + describeVal(base)
+}
+
+// isBoundWrapper: the synthetic closure behind a method value x.M (its free variable is the
+// receiver itself, not the address of a captured variable).
+func isBoundWrapper(f *ssa.Function) bool {
+	return f != nil && strings.HasPrefix(f.Synthetic, "bound method wrapper")
 }
